@@ -325,6 +325,7 @@ OPERANDS = [
     ('_comprehensions', 'for a in b if c for d in e'), ('_comprehension_ifs', 'if (a, b)'),
     ('expr', "{'a': x, **(r)}"), ('expr', '(f)(c)'), ('expr', '( f.g )(c, k=(v))'), ('expr', '[(a), (b.c)]'), ('expr', '{(1): (x)}'), ('expr', '(a) | (b)'), ('expr', '-(1)'), ('expr', '(1) + (2j)'),
     ('pattern', '(a) | (b)'), ('pattern', '[(a), (*b)]') if False else ('pattern', '[(a), *b]'), ('pattern', '{1: (x), **r}'), ('pattern', 'C((a), k=(b))'), ('pattern', '(a as b)'),
+    ('pattern', '[a, *ﬁ]'), ('_type_params', 'a, *ﬁ'), ('type_param', '**ﬁ'), ('keyword', 'ﬁ=1'), ('keyword', '𝐚=1'), ('arguments', 'ﬁ, *𝐚'), ('expr', '[ﬁ, 𝐚.ﬂ]'), ('_aliases', 'ﬁ as ﬂ'),
     # non-ASCII text before closing delimiters / separators (byte offsets differ from columns)
     ('expr', "[a, 'ñ']"), ('expr', '{ñ, b}'), ('expr', "('é', ü)"), ('expr', "[\n 'ö',\n ñ]"), ('expr', "{'ключ': ñ, **é}"), ('expr', "f('ü', ñ=é)"), ('expr', 'ñ | é | ü'), ('expr', 'ä.ö.ü'),
     ('pattern', "[ñ, 'é']"), ('pattern', "{'ü': ñ, **é}"), ('pattern', 'Ç(ñ, é=ü)'), ('pattern', "'ñ' | é"), ('pattern', 'ñ as é'), ('arguments', 'ñ, *é, ü'), ('arguments', 'ñ, é'),
@@ -402,6 +403,9 @@ def stage_matrix(ctx: Ctx, progs):
             base = fst.FST(src, smode)
         except Exception:
             continue
+        import unicodedata
+        nfkc = unicodedata.normalize('NFKC', src) != src     # identifiers the parser normalises (ﬁ -> fi): their length in the tree differs from their length in the source
+        report = (lambda sig, what, rec_: ctx.violation(sig + '|nfkc-identifier', what, rec_)) if nfkc else ctx.violation
         for mode in MODES:
             rec = {'source_mode': smode, 'src': src, 'target_mode': mode}
             # (a) copy-mode coercion
@@ -413,17 +417,17 @@ def stage_matrix(ctx: Ctx, progs):
             except (fst.NodeError, SyntaxError, ValueError, NotImplementedError) as e:
                 r, err = None, e
             except Exception as e:
-                ctx.violation(f'coerce-crash|{type(base.a).__name__}->{mode}|{type(e).__name__}', 'coercion raised an unexpected kind of error', {**rec, 'error': repr(e)[:300]})
+                report(f'coerce-crash|{type(base.a).__name__}->{mode}|{type(e).__name__}', 'coercion raised an unexpected kind of error', {**rec, 'error': repr(e)[:300]})
                 continue
             ctx.tick((smode, src, mode), f'coerce:{mode}:' + ('ok' if r is not None else 'refuse'))
             if f.src != before_src or (f.a is not None and ast.dump(f.a, include_attributes=True) != before_dump) or f.a is None:
-                ctx.violation(f'copy-coerce-touched-operand|{type(base.a).__name__}->{mode}', 'as_(mode, copy=True) changed the operand', {**rec, 'operand_after': f.src})
+                report(f'copy-coerce-touched-operand|{type(base.a).__name__}->{mode}', 'as_(mode, copy=True) changed the operand', {**rec, 'operand_after': f.src})
                 continue
             if r is None:
                 refusals[f'{type(base.a).__name__}->{mode}'] = refusals.get(f'{type(base.a).__name__}->{mode}', 0) + 1
                 continue
             if not kind_ok(r.a, mode):
-                ctx.violation(f'wrong-kind|{type(base.a).__name__}->{mode}', 'the coerced node is not an instance of the requested kind', {**rec, 'got': type(r.a).__name__, 'result_src': r.src})
+                report(f'wrong-kind|{type(base.a).__name__}->{mode}', 'the coerced node is not an instance of the requested kind', {**rec, 'got': type(r.a).__name__, 'result_src': r.src})
                 continue
             already = kind_ok(base.a, mode) and mode not in ('stmts', 'exec', 'Module', '_arglike') and not (mode == 'stmt' and isinstance(base.a, ast.Module))
             # (b) standalone and parses in the requested mode to itself
@@ -440,16 +444,16 @@ def stage_matrix(ctx: Ctx, progs):
             except Exception as e:
                 d = [f'verify / re-parse in mode failed: {e!r}'[:300]]
             if d:
-                ctx.violation(f'result-not-valid|{type(base.a).__name__}->{mode}', 'the coerced tree does not parse in the requested mode to itself', {**rec, 'result_src': r.src, 'diffs': d})
+                report(f'result-not-valid|{type(base.a).__name__}->{mode}', 'the coerced tree does not parse in the requested mode to itself', {**rec, 'result_src': r.src, 'diffs': d})
                 continue
             # (c) same leaves
             lb, lr = leaves(base.a), leaves(r.a)
             if lb != lr:
-                ctx.violation(f'leaves-differ|{type(base.a).__name__}->{mode}', 'the coerced node does not contain the same names and constants', {**rec, 'result_src': r.src, 'operand': lb, 'result': lr})
+                report(f'leaves-differ|{type(base.a).__name__}->{mode}', 'the coerced node does not contain the same names and constants', {**rec, 'result_src': r.src, 'operand': lb, 'result': lr})
                 continue
             # (d) already of that kind: unchanged
             if type(r.a) is type(base.a) and already and (r.src != src or cmp_ast(r.a, base.a, positions=False)):
-                ctx.violation(f'same-kind-changed|{type(base.a).__name__}->{mode}', 'a node that already has the requested kind was changed', {**rec, 'result_src': r.src})
+                report(f'same-kind-changed|{type(base.a).__name__}->{mode}', 'a node that already has the requested kind was changed', {**rec, 'result_src': r.src})
                 continue
             # (e) formatted vs pure AST
             try:
@@ -457,22 +461,22 @@ def stage_matrix(ctx: Ctx, progs):
                 ra = fst.FST(copy_ast(base.a), mode)
                 d = cmp_ast(squash_multiline_strings(ra.a), squash_multiline_strings(r.a), positions=False, ctx=False)
                 if d:
-                    ctx.violation(f'fst-vs-ast|{type(base.a).__name__}->{mode}|{d[0].split(": ")[-1][:40]}', 'coercing the formatted node and coercing its pure AST give different structures',
+                    report(f'fst-vs-ast|{type(base.a).__name__}->{mode}|{d[0].split(": ")[-1][:40]}', 'coercing the formatted node and coercing its pure AST give different structures',
                                   {**rec, 'from_fst': r.src, 'from_ast': ra.src, 'diffs': d})
                     continue
             except AttributeError as e:
-                ctx.violation(f'coerce-crash|{type(base.a).__name__}->{mode}|AttributeError', 'coercing the pure AST crashed', {**rec, 'from_fst': r.src, 'error': repr(e)[:200]})
+                report(f'coerce-crash|{type(base.a).__name__}->{mode}|AttributeError', 'coercing the pure AST crashed', {**rec, 'from_fst': r.src, 'error': repr(e)[:200]})
                 continue
             except (fst.NodeError, SyntaxError, ValueError, NotImplementedError) as e:
-                ctx.violation(f'fst-vs-ast-refusal|{type(base.a).__name__}->{mode}', 'the formatted node coerces but its pure AST is refused', {**rec, 'from_fst': r.src, 'error': repr(e)[:200]})
+                report(f'fst-vs-ast-refusal|{type(base.a).__name__}->{mode}', 'the formatted node coerces but its pure AST is refused', {**rec, 'from_fst': r.src, 'error': repr(e)[:200]})
                 continue
             # (f) non-copy coercion gives the same
             try:
                 r2 = fst.FST(src, smode).as_(mode)
                 if r2.src != r.src or cmp_ast(r2.a, r.a, positions=True):
-                    ctx.violation(f'copy-vs-inplace|{type(base.a).__name__}->{mode}', 'copy-mode and in-place coercion differ', {**rec, 'copy': r.src, 'inplace': r2.src})
+                    report(f'copy-vs-inplace|{type(base.a).__name__}->{mode}', 'copy-mode and in-place coercion differ', {**rec, 'copy': r.src, 'inplace': r2.src})
             except Exception as e:
-                ctx.violation(f'copy-vs-inplace|{type(base.a).__name__}->{mode}', 'in-place coercion raised although copy-mode coercion succeeded', {**rec, 'error': repr(e)[:200]})
+                report(f'copy-vs-inplace|{type(base.a).__name__}->{mode}', 'in-place coercion raised although copy-mode coercion succeeded', {**rec, 'error': repr(e)[:200]})
     ctx.extra['refusals'] = len(refusals)
     # (g) a put that coerces == a put of the explicitly converted node
     hosts = [('match x:\n    case 0: pass\n', lambda r: r.body[0].cases[0], 'pattern', 'pattern'), ('f(1)\n', lambda r: r.body[0].value, 'args', '_arglikes'),
@@ -501,9 +505,9 @@ def stage_matrix(ctx: Ctx, progs):
             ctx.tick(('put-coerce', smode, src, field), 'coerce:put')
             d = cmp_ast(h1.a, h2.a, positions=False)
             if d:
-                ctx.violation(f'put-coerce|{field}', 'a put that coerces differs from a put of the explicitly converted node', {**rec, 'coercing_put': h1.src, 'explicit_put': h2.src, 'diffs': d})
+                report(f'put-coerce|{field}', 'a put that coerces differs from a put of the explicitly converted node', {**rec, 'coercing_put': h1.src, 'explicit_put': h2.src, 'diffs': d})
             elif reparse_diffs(h1):
-                ctx.violation(f'put-coerce-c01|{field}', 'tree after a coercing put does not re-parse to itself', {**rec, 'coercing_put': h1.src})
+                report(f'put-coerce-c01|{field}', 'tree after a coercing put does not re-parse to itself', {**rec, 'coercing_put': h1.src})
 
 
 def run(ctx: Ctx):
